@@ -520,10 +520,8 @@ def check_select_nonempty(ctx, rule: str, select_fn=lambda fi: True):
 
 SENTINEL_EXCEPTIONS = {
     ("QualitativeDiscretizer._prepare_data", "StringDiscretizer", "str_nan"):
-        "the converter only records string forms; a stray default '__NAN__' leader is never observed afterwards and ends in the default group (checked with custom sentinels during the build)",
+        "the converter only records string forms; with a custom sentinel a stray '__NAN__' leader is never observed afterwards and is merged like any unobserved modality (checked with custom sentinels during the build; no property clause breaks)",
     ("ChainedDiscretizer._prepare_data", "StringDiscretizer", "str_nan"): "same as QualitativeDiscretizer._prepare_data",
-    ("QualitativeDiscretizer.fit", "BaseDiscretizer", "str_nan"): "inner re-application of already fitted orders with dropna=False: missing values stay NaN, no sentinel is written",
-    ("QualitativeDiscretizer.fit", "BaseDiscretizer", "str_default"): "same: the inner BaseDiscretizer only replays given orders",
     ("MulticlassCarver.fit", "BinaryCarver", "str_nan"): "forwarded through **self.kwargs (checked by C12 R-forward-all)",
     ("MulticlassCarver.fit", "BinaryCarver", "str_default"): "forwarded through **self.kwargs (checked by C12 R-forward-all)",
 }
